@@ -50,6 +50,7 @@ type bcClient struct {
 	waitXID  int    // the X spec's id of that call: (idx+1)*100 + (op index+1)  (X-level trace validation)
 	canCanc  bool
 	canc     bool
+	deadline bool // the context of the call in flight ends by its deadline (virtual time)
 	cancel   context.CancelFunc
 	longCh   chan struct{} // non-nil while inside a long critical section
 	released bool
@@ -253,7 +254,9 @@ func (d *bcDriver) opFunc(c *bcClient, pi int, op bcOp) sched.Op {
 			id := d.newID()
 			xid := (c.idx+1)*100 + pi + 1
 			ctx, cancel := context.WithCancel(context.Background())
-			if op.Op == "wait" && op.C && id%3 == 0 {
+			c.deadline = false
+			if op.Op == "wait" && op.C && id%3 == 0 && len(x.Sched) == 0 {
+				c.deadline = true
 				// this context ends by its deadline (virtual time): ctx.Err() is then DeadlineExceeded,
 				// which Wait must not hand out (nil, the predicate's error or context.Canceled only)
 				ctx, cancel = context.WithDeadline(context.Background(), time.Now().Add(time.Hour))
@@ -446,6 +449,16 @@ func (d *bcDriver) Run(x *sched.Exec, raw json.RawMessage) json.RawMessage {
 				ms = append(ms, sched.Move{Label: "cancel:" + c.c.Name, Do: func() {
 					c.canc = true
 					x.Log(trace.E{"ev": "cancel", "id": c.waitID, "xid": c.waitXID})
+					if c.deadline {
+						// letting time pass ends EVERY deadline context in flight (all of them were made
+						// less than the tick ago): each of those calls is cancelled from here on
+						for _, o := range d.cl {
+							if o != c && o.deadline && o.waitID != 0 && !o.canc {
+								o.canc = true
+								x.Log(trace.E{"ev": "cancel", "id": o.waitID, "xid": o.waitXID})
+							}
+						}
+					}
 					c.cancel()
 				}})
 			}
